@@ -3,7 +3,10 @@
    against layer A (PicoA).  One ndjson record per user operation, many histories per file
    separated by {"op":"reset","id":..}.  Deterministic, so validation is linear.
    Every violated property id is printed as  <<"BAD", json>>  (all histories are judged, not only
-   the first failing one); the POSTCONDITION checks that every record was consumed. *)
+   the first failing one); the POSTCONDITION checks that every record was consumed.
+   A history whose next operation is outside the property's domain given what was OBSERVED so far
+   (possible only when the implementation deviated from the model that generated the history) is
+   reported as PRECONDITION and not judged beyond that point. *)
 EXTENDS PicoProgram, TLC, Json, IOUtils
 
 CONSTANTS Capacity
@@ -42,10 +45,11 @@ Next ==
        [] r.op \in {"call", "retain"} ->
             LET a == A!CallA(mon, r.evs, ResOf(r))
                 ok == ResOf(r).t # "panic"
-            IN /\ Pre(r, DefN(r.n, mon.src, mon.mp))
-               /\ Report(r, a.bad)
-               /\ mon' = IF r.op = "retain" /\ ok THEN A!RetainA(a.m, r.n) ELSE a.m
-               /\ dead' = ~ok
+                pre == DefN(r.n, mon.src, mon.mp)
+            IN /\ Pre(r, pre)
+               /\ IF pre THEN Report(r, a.bad) ELSE TRUE
+               /\ mon' = IF ~pre THEN mon ELSE IF r.op = "retain" /\ ok THEN A!RetainA(a.m, r.n) ELSE a.m
+               /\ dead' = (~ok \/ ~pre)
                /\ UNCHANGED tid
        [] r.op = "clear" -> mon' = A!ClearA(mon, r.n) /\ UNCHANGED <<tid, dead>>
        [] r.op = "gc" ->
@@ -53,8 +57,8 @@ Next ==
             /\ mon' = A!GcA(mon) /\ dead' = (ResOf(r).t = "panic") /\ UNCHANGED tid
        [] r.op = "lookup" ->
             /\ Pre(r, A!CanLookupA(mon, r.n))
-            /\ Report(r, A!LookupBadA(mon, r.n, ResOf(r)))
-            /\ dead' = (ResOf(r).t = "panic") /\ UNCHANGED <<mon, tid>>
+            /\ IF A!CanLookupA(mon, r.n) THEN Report(r, A!LookupBadA(mon, r.n, ResOf(r))) ELSE TRUE
+            /\ dead' = (ResOf(r).t = "panic" \/ ~A!CanLookupA(mon, r.n)) /\ UNCHANGED <<mon, tid>>
 
 Spec == Init /\ [][Next]_vars
 
